@@ -104,10 +104,6 @@ def parse_vep(args:argparse.Namespace) -> None:
                 tally.total += 1
                 transcript_id = record.feature
 
-                if transcript_id not in vep_records:
-                    vep_records[transcript_id] = []
-
-
                 try:
                     record = record.convert_to_variant_record(anno, genome)
                     tally.succeed += 1
@@ -128,7 +124,7 @@ def parse_vep(args:argparse.Namespace) -> None:
                         continue
                     raise
 
-                vep_records[transcript_id].append(record)
+                vep_records.setdefault(transcript_id, []).append(record)
 
         logger.info('VEP file %s loaded.', vep_file)
 
